@@ -527,6 +527,36 @@ func (cg *caseGen) rec(cx ectx) (*pvcase.Expr, bool) {
 			// at the top level, after an optional separator
 			body = seqOf(k, un(pvcase.KOpt, cg.nonEmptyLit()), thr)
 		}
+		if cg.chance(0.35) {
+			// `k:X W(%{L}) {reader} //{L} k:Y`: the throw is the DIRECT operand of a construct that opens a label frame of
+			// its own (a choice alternative, ?, a label, &, !!), the recovery expression binds the SAME label k, and an
+			// action of the enclosing sequence reads k afterwards: the recovery expression runs in the frame of the throw
+			// site, which ends with W - the reader must see X's value, not Y's.
+			var w *pvcase.Expr
+			switch cg.r.IntN(5) {
+			case 0:
+				ch := cg.newChoice()
+				ch.Kids = []*pvcase.Expr{cg.nonEmptyLit(), thr}
+				w = ch
+			case 1:
+				w = un(pvcase.KOpt, thr)
+			case 2:
+				w = lab(pickStr(cg.r, valueLabels), thr)
+			case 3:
+				w = un(pvcase.KAnd, thr)
+			default:
+				w = un(pvcase.KNot, un(pvcase.KNot, thr))
+			}
+			items := []*pvcase.Expr{k, w}
+			if cg.chance(0.4) {
+				items = append(items, lab(pickStr(cg.r, valueLabels), cg.operand()))
+			}
+			var rexp *pvcase.Expr = lab(k.Label, cg.recoverSkip())
+			if cg.chance(0.4) {
+				rexp = un(pvcase.KAct, rexp)
+			}
+			return &pvcase.Expr{Kind: pvcase.KRec, Kids: []*pvcase.Expr{un(pvcase.KAct, seqOf(items...)), rexp}, Labels: labels}, true
+		}
 		var rest *pvcase.Expr = cg.recoverSkip()
 		if cg.chance(0.6) {
 			rest = lab(pickStr(cg.r, valueLabels), rest)
@@ -672,6 +702,37 @@ func (cg *caseGen) stateShape(cx ectx) (*pvcase.Expr, bool) {
 	y := cg.nonEmptyLit()
 	z := cg.nonEmptyLit()
 	xc := func() *pvcase.Expr { return x.Clone() }
+	if cg.f.thr && cg.chance(0.3) {
+		// #{} ( (x %{L} y) //{L} (#{} skip) )* #{} reader : the throw is a DIRECT element of a sequence, after plain
+		// matchers only; its recovery expression changes the store and succeeds; a later element of the same sequence
+		// fails, under a repetition / option and nothing else that restores the store in between: the iteration failed, so
+		// the recovery expression's change must be gone
+		l := pickStr(cg.r, throwLabels)
+		thr := &pvcase.Expr{Kind: pvcase.KThr, Label: l}
+		items := []*pvcase.Expr{xc(), thr, y}
+		if cg.chance(0.3) {
+			items = []*pvcase.Expr{thr, y}
+		} else if cg.chance(0.3) {
+			items = []*pvcase.Expr{xc(), thr, thr.Clone(), y}
+		}
+		rcv := seqOf(stc(), cg.recoverSkip())
+		guarded := &pvcase.Expr{Kind: pvcase.KRec, Kids: []*pvcase.Expr{seqOf(items...), rcv}, Labels: []string{l}}
+		var guard *pvcase.Expr
+		switch cg.r.IntN(3) {
+		case 0:
+			guard = un(pvcase.KStar, guarded)
+		case 1:
+			guard = un(pvcase.KOpt, guarded)
+		default:
+			guard = un(pvcase.KOpt, un(pvcase.KPlus, guarded))
+		}
+		k := []*pvcase.Expr{stc(), guard, stc()}
+		if cg.f.pred {
+			k = append(k, &pvcase.Expr{Kind: pvcase.KAndc})
+		}
+		k = append(k, un(pvcase.KStar, &pvcase.Expr{Kind: pvcase.KAny}))
+		return seqOf(k...), true
+	}
 	if cg.f.thr && cg.chance(0.5) {
 		// #{} ((%{L} //{L} y) //{L} z)? #{} x : a throw that every handler (two for the same label, nested) fails to
 		// recover from, under an option, between state changes: the store must be what it was
